@@ -222,6 +222,8 @@ impl<'tcx> Dumper<'tcx> {
                 if let mir::Const::Unevaluated(uv, _) = c.const_ {
                     if let Some(p) = uv.promoted {
                         v.push(("promoted", J::I(p.index() as i128)));
+                    } else if uv.promoted.is_none() && !(t.is_integral() || t.is_bool()) {
+                        v.push(("const_def", J::S(dps(tcx, uv.def))));
                     } else if (t.is_integral() || t.is_bool()) && !c.const_.has_param() {
                         // a named constant (`const LIMIT: usize = 1024`): give its value
                         let env = TypingEnv::post_analysis(tcx, def);
@@ -1040,6 +1042,12 @@ fn dump_crate<'tcx>(tcx: TyCtxt<'tcx>, dir: &str) {
             let body = tcx.mir_for_ctfe(def);
             let env = TypingEnv::post_analysis(tcx, def);
             statics.push(J::O(vec![("id", J::S(dps(tcx, def))), ("mir", d.body(body, def, env))]));
+        }
+        // named constants: their initialiser bodies (so that `const NAMES: [&str; 4] = [..]` can be read by the rules)
+        if matches!(tcx.def_kind(def), DefKind::Const { .. }) && tcx.generics_of(def).count() == 0 {
+            let body = tcx.mir_for_ctfe(def);
+            let env = TypingEnv::post_analysis(tcx, def);
+            statics.push(J::O(vec![("id", J::S(dps(tcx, def))), ("const", J::B(true)), ("mir", d.body(body, def, env))]));
         }
     }
 
